@@ -30,7 +30,10 @@ def main(argv=None):
         seed = ns.seed if ns.seed is not None else int(os.environ.get("VERIF_SEED", "1") or 1)
     except ValueError:
         seed = 1
-    logging.disable(logging.CRITICAL)  # pdb2pqr is chatty; handlers are added where needed
+    # pdb2pqr is chatty: INFO is switched off, warnings go to harness collectors only
+    logging.getLogger().addHandler(logging.NullHandler())
+    logging.getLogger("pdb2pqr").setLevel(logging.WARNING)
+    logging.getLogger("propka").setLevel(logging.ERROR)
     try:
         from . import core
 
